@@ -86,6 +86,9 @@ def main():
             pass
         sys.stdout, sys.stderr = real_stdout, sys.__stderr__
         open(os.environ['VW_TRACE'], 'w').close()
+        for sub in spec.get('mkdirs', []):
+            # directories the options name exist when the observed run starts, whatever the earlier run did to them
+            os.makedirs(os.path.join(spec['dir'], sub), exist_ok=True)
         gc.set_threshold(333, 7, 3)
         gc.set_debug(0)
         _fe2, _pe2 = traceback.format_exception, traceback.print_exception
